@@ -142,6 +142,7 @@ var zzSuffix = map[string]string{}
 // while it runs is killed.
 func zzProbe(ctx context.Context, opts *execext.RunCommandOptions) error {
 	if strings.HasPrefix(opts.Command, "pre ") { // a precondition command
+		zz.Emit("G", strings.TrimPrefix(opts.Command, "pre "), 0) // evaluating a guard takes time: a scheduling point
 		if err := ctx.Err(); err != nil {
 			return err
 		}
